@@ -32,18 +32,62 @@ type ShareL struct {
 	Path string `json:"path"`
 }
 
+// SharePair makes two different leaves of the defaults (same reference type)
+// the very same Go object.
+type SharePair struct {
+	A string `json:"a"`
+	B string `json:"b"`
+}
+
 // C02Case is a C01 case plus aliasing directives.
 type C02Case struct {
 	Shape        shape.Shape `json:"shape"`
 	Data         shape.Data  `json:"data"`
 	ShareDefault []ShareD    `json:"share_default,omitempty"`
 	ShareLayers  []ShareL    `json:"share_layers,omitempty"`
+	ShareWithin  []SharePair `json:"share_within,omitempty"`
+}
+
+// genShareWithin aliases pairs of default leaves of identical reference type.
+func genShareWithin(t *rapid.T, nodes []shape.Node, d *shape.Data) []SharePair {
+	byType := map[reflect.Type][]string{}
+	var order []reflect.Type
+	for _, n := range nodes {
+		if n.Class != shape.ClassLeaf || !isRefKind(n.Type.Kind()) || d.Defaults[n.Path] == 0 {
+			continue
+		}
+		nilParent := false
+		for p := range d.DefNil {
+			if strings.HasPrefix(n.Path, p+".") {
+				nilParent = true
+			}
+		}
+		if nilParent {
+			continue
+		}
+		if _, ok := byType[n.Type]; !ok {
+			order = append(order, n.Type)
+		}
+		byType[n.Type] = append(byType[n.Type], n.Path)
+	}
+	var out []SharePair
+	for _, ty := range order {
+		ps := byType[ty]
+		for i := 1; i < len(ps); i++ {
+			if rapid.Bool().Draw(t, "share_within") {
+				d.Defaults[ps[i]] = d.Defaults[ps[0]]
+				out = append(out, SharePair{A: ps[0], B: ps[i]})
+			}
+		}
+	}
+	return out
 }
 
 var aliasLeafTypes = []string{
 	"[]string", "[]int", "[][]int", "[]Rec", "[]*int", "[]map[string]int", "[2]*int", "[2][]int", "[1]Rec",
 	"map[string]int", "map[string][]string", "map[string]Rec", "map[string]*int", "map[string]map[string]int", "map[string]struct{}",
 	"*int", "*string", "**int", "*[]int", "*map[string]int", "*[2]int", "*Stamp", "*time.Time", "net.IP", "Names", "Limits",
+	"Tagged", "*Tagged", "[]Tagged", "map[string]Tagged", "[1]Tagged",
 	"int", "string", "Stamp",
 }
 
@@ -96,8 +140,9 @@ func genC02(t *rapid.T) C02Case {
 	}
 	nodes := shape.Walk(T)
 	d := shape.GenData(t, nodes, 4, 45)
+	sw := genShareWithin(t, nodes, &d)
 	sd, sl := genShares(t, nodes, &d)
-	return C02Case{Shape: s, Data: d, ShareDefault: sd, ShareLayers: sl}
+	return C02Case{Shape: s, Data: d, ShareDefault: sd, ShareLayers: sl, ShareWithin: sw}
 }
 
 // applyShares physically aliases the leaves named by the directives.
@@ -149,7 +194,14 @@ func buildInputs(b *shape.Builder, c C02Case) (*builtInputs, error) {
 		}
 		in.layers = append(in.layers, lv)
 	}
-	in.shared = applyShares(in.defaults, in.layers, c.ShareDefault, c.ShareLayers)
+	for _, sp := range c.ShareWithin {
+		a, b := shape.FieldByPath(in.defaults, sp.A), shape.FieldByPath(in.defaults, sp.B)
+		if a.IsValid() && b.IsValid() && b.CanSet() && a.Type() == b.Type() && isRefKind(a.Kind()) && !a.IsNil() {
+			b.Set(a)
+			in.shared++
+		}
+	}
+	in.shared += applyShares(in.defaults, in.layers, c.ShareDefault, c.ShareLayers)
 	for i, l := range c.Data.Layers {
 		if l.ByPtr {
 			in.args = append(in.args, in.layers[i].Addr())
@@ -311,6 +363,8 @@ type C02Cfg struct {
 	shape.EmbB
 	When   time.Time
 	IP     net.IP
+	Tg     shape.Tagged
+	PTg    *shape.Tagged
 	hidden int
 	Ch     chan int
 	Skip   []int `dials:"-"`
@@ -319,12 +373,13 @@ type C02Cfg struct {
 // C02DialsCase: Data.Layers[i] is reported by source Src[i]; the first
 // report of each source is its initial Value.
 type C02DialsCase struct {
-	Data         shape.Data `json:"data"`
-	Sources      int        `json:"sources"`
-	Src          []int      `json:"src"`
-	ShareDefault []ShareD   `json:"share_default,omitempty"`
-	ShareLayers  []ShareL   `json:"share_layers,omitempty"`
-	ScribbleAt   int        `json:"scribble_at"` // scribble over the version current after this many reports
+	Data         shape.Data  `json:"data"`
+	Sources      int         `json:"sources"`
+	Src          []int       `json:"src"`
+	ShareDefault []ShareD    `json:"share_default,omitempty"`
+	ShareLayers  []ShareL    `json:"share_layers,omitempty"`
+	ShareWithin  []SharePair `json:"share_within,omitempty"`
+	ScribbleAt   int         `json:"scribble_at"` // scribble over the version current after this many reports
 }
 
 func genC02Dials(t *rapid.T) C02DialsCase {
@@ -346,8 +401,9 @@ func genC02Dials(t *rapid.T) C02DialsCase {
 			src[i] = rapid.IntRange(0, ns-1).Draw(t, "src")
 		}
 	}
+	sw := genShareWithin(t, nodes, &d)
 	sd, sl := genShares(t, nodes, &d)
-	return C02DialsCase{Data: d, Sources: ns, Src: src, ShareDefault: sd, ShareLayers: sl, ScribbleAt: rapid.IntRange(0, len(d.Layers)).Draw(t, "scribble_at")}
+	return C02DialsCase{Data: d, Sources: ns, Src: src, ShareDefault: sd, ShareLayers: sl, ShareWithin: sw, ScribbleAt: rapid.IntRange(0, len(d.Layers)).Draw(t, "scribble_at")}
 }
 
 func runC02Dials(c C02DialsCase) vrt.Verdict {
@@ -361,7 +417,7 @@ func runC02Dials(c C02DialsCase) vrt.Verdict {
 	}
 	T := reflect.TypeOf(C02Cfg{})
 	b := shape.NewBuilder(T, shape.ValueOpts{})
-	cc := C02Case{Data: c.Data, ShareDefault: c.ShareDefault, ShareLayers: c.ShareLayers}
+	cc := C02Case{Data: c.Data, ShareDefault: c.ShareDefault, ShareLayers: c.ShareLayers, ShareWithin: c.ShareWithin}
 	in, err := buildInputs(b, cc)
 	if err != nil {
 		return vrt.Violationf("pointerified type cannot hold the layer: %v", err)
